@@ -360,3 +360,77 @@ func TestRegressUpdateLostInCrash(t *testing.T) {
 	}
 	lib.Case(name, lib.FP(1), true)
 }
+
+// Lunatic evidence whose forged validator set lists one validator of the common set twice (decoders accept that) and
+// carries its signature in both slots: when that validator alone holds +1/3 of the common set, the double-vote check of
+// VerifyCommitLightTrusting is never reached and the validator is named byzantine twice — punished twice for one block.
+func TestRegressRepeatedValidatorNamedTwice(t *testing.T) {
+	const name = "TestRegressRepeatedValidatorNamedTwice"
+	p := types.DefaultConsensusParams()
+	p.Evidence.MaxAgeNumBlocks, p.Evidence.MaxAgeDuration = 10, time.Hour
+	c, err := lib.NewChain(lib.ChainSpec{Keys: []int{0, 1, 2}, Powers: []int64{10, 5, 5}, Params: p}) // key 0 holds 1/2
+	if err != nil {
+		t.Fatalf("VERIF-INFRA: %v", err)
+	}
+	defer c.Close()
+	pool, _ := evidence.NewPool(dbm.NewMemDB(), c.StateStore, c.BlockStore)
+	c.SetEvidencePool(pool)
+	for i := 0; i < 4; i++ {
+		if err := c.Advance(nil); err != nil {
+			t.Fatal(err)
+		}
+	}
+	ev, err := c.ForgeAttack(lib.AttackSpec{Shape: lib.Lunatic, CommonHeight: 1, ConflictHeight: 2, Signers: []int{0},
+		ForgedVals: lib.RepeatedValSet(0, 10, 2)})
+	if err != nil {
+		t.Fatal(err)
+	}
+	wire, err := lib.WireEvidence(ev)
+	if err != nil {
+		t.Fatalf("VERIF-INFRA: %v", err)
+	}
+	errA := pool.AddEvidence(wire)
+	pend, _ := pool.PendingEvidence(-1)
+	if errA == nil || len(pend) != 0 {
+		n := 0
+		if len(pend) == 1 {
+			n = len(pend[0].ABCI())
+		}
+		report(t, name, kfRepeated, "lunatic evidence with the validator set [v, v] and v's signature in both slots was admitted; the application would be given "+
+			itoa(n)+" byzantine validator entries for one validator")
+		return
+	}
+	lib.Case(name, lib.FP(1), true)
+}
+
+// One forged block, two admissible common heights: the evidence hash covers the common height, so after the evidence
+// anchored at height 1 was committed the same block anchored at height 2 is admitted and accepted in another block —
+// the signers are punished twice for one signature.
+func TestRegressSameBlockOtherCommonHeight(t *testing.T) {
+	const name = "TestRegressSameBlockOtherCommonHeight"
+	f := newFixture(t, 6, 20, time.Hour)
+	lb, err := f.c.ForgeConflictingBlock(lib.AttackSpec{Shape: lib.Lunatic, CommonHeight: 1, ConflictHeight: 4, Signers: all4})
+	if err != nil {
+		t.Fatal(err)
+	}
+	ev1, err1 := f.c.AttackEvidence(lb, 1, lib.Lunatic)
+	ev2, err2 := f.c.AttackEvidence(lb, 2, lib.Lunatic)
+	if err1 != nil || err2 != nil {
+		t.Fatal(err1, err2)
+	}
+	if err := f.pool.CheckEvidence(types.EvidenceList{ev1}); err != nil {
+		t.Fatalf("genuine lunatic evidence rejected: %v", err)
+	}
+	if err := f.c.Advance(&lib.HeightPlan{Evidence: types.EvidenceList{ev1}}); err != nil { // committed in block 7
+		t.Fatal(err)
+	}
+	errA := f.pool.AddEvidence(ev2)
+	pend, _ := f.pool.PendingEvidence(-1)
+	errC := f.pool.CheckEvidence(types.EvidenceList{ev2})
+	if len(pend) != 0 || errC == nil {
+		report(t, name, kfReanchor, "forged block 4 committed as evidence with common height 1; the same block with common height 2: AddEvidence err="+
+			short(errA)+", pending="+itoa(len(pend))+", CheckEvidence (another block) err="+short(errC))
+		return
+	}
+	lib.Case(name, lib.FP(1), true)
+}
